@@ -2,6 +2,7 @@
 package c01
 
 import (
+	"bufio"
 	"bytes"
 	"fmt"
 	"io"
@@ -142,6 +143,35 @@ func checkEncode(h ref.Header) string {
 	}
 	if n := ws.HeaderSize(wh); n != len(want) {
 		return fmt.Sprintf("HeaderSize(%v) = %d, encoded size is %d", h, n, len(want))
+	}
+	// the same header through destinations a caller is likely to pass: a bufio.Writer that has already
+	// carried other bytes (its internal buffer is dirty), one with little room left, and the harness recorder
+	// (which sees the individual Write calls)
+	var under bytes.Buffer
+	bw := bufio.NewWriterSize(&under, 64)
+	bw.Write(bytes.Repeat([]byte{0xff}, 64))
+	bw.Flush()
+	under.Reset()
+	bw.Write([]byte{0xee, 0xee, 0xee})
+	if err := ws.WriteHeader(bw, wh); err != nil {
+		return fmt.Sprintf("WriteHeader(%v) into a used bufio.Writer failed: %v", h, err)
+	}
+	bw.Flush()
+	if got := under.Bytes(); len(got) < 3 || !bytes.Equal(got[3:], want) {
+		return fmt.Sprintf("WriteHeader(%v) into a bufio.Writer that carried other bytes before = %x, RFC layout is %x", h, got, want)
+	}
+	under.Reset()
+	bw.Write(bytes.Repeat([]byte{0xdd}, 58)) // 6 bytes of room: most headers do not fit
+	if err := ws.WriteHeader(bw, wh); err != nil {
+		return fmt.Sprintf("WriteHeader(%v) into a nearly full bufio.Writer failed: %v", h, err)
+	}
+	bw.Flush()
+	if got := under.Bytes(); len(got) < 58 || !bytes.Equal(got[58:], want) {
+		return fmt.Sprintf("WriteHeader(%v) into a nearly full bufio.Writer = …%x, RFC layout is %x", h, got[min(58, len(got)):], want)
+	}
+	rec := tx.NewRec()
+	if err := ws.WriteHeader(rec, wh); err != nil || !bytes.Equal(rec.Bytes(), want) {
+		return fmt.Sprintf("WriteHeader(%v) into a plain writer: err=%v bytes=%x, RFC layout is %x", h, err, rec.Bytes(), want)
 	}
 	stream := append(append([]byte(nil), want...), sentinel...)
 	for _, sizes := range [][]int{nil, {1}} {
